@@ -204,3 +204,276 @@ def check_C06(chk):
                         "the runs with more than 10 ready members and adds while readable",
                         "real thread scheduling is not exhibited by the model: the theorems cover every interleaving, the concurrent runs sample some"]
     finish_proof(chk, proof_ok, fails, bad)
+
+
+# ------------------------------------------------------------------ C07 / C17 (router driver)
+def gen_router_cases(rng, n, stops):
+    cases = []
+    for k in range(n):
+        r = rng.randint(1, 32) if k % 3 else rng.randint(0, 16)
+        plan = []
+        for _ in range(r):
+            plan.append((rng.choice([0, 0, 1, 3, 10, 50]) if rng.random() < 0.6 else 0, rng.choice([0, 1, 2, 5, 20, 50]),
+                         rng.random() < 0.6, rng.random() < 0.3))
+        stop = stops[k % len(stops)]
+        cases.append({"id": k + 1, "plan": plan, "threads": rng.randint(1, 8), "stop": stop, "nshut": rng.randint(1, 4), "late": rng.randint(0, 3) if stop == "shutdown" else 0})
+    return cases
+
+
+def router_line(c):
+    return "id=%d plan=%s threads=%d stop=%s nshut=%d late=%d" % (
+        c["id"], ";".join("%d,%d,%d,%s" % (b, a, 1 if d else 0, "x" if x else "c") for b, a, d, x in c["plan"]) or "0,0,1,c",
+        c["threads"], c["stop"], c["nshut"], c["late"])
+
+
+def router_oracle(c, rec, prop):
+    if rec is None:
+        return "harness produced no record (crash?)"
+    if rec["panicked"]:
+        return "a thread panicked while the router was %s" % ("running" if rec["stop"] == "none" else "being stopped (%s)" % rec["stop"])
+    plan = c["plan"] or [(0, 0, True, False)]
+    log = rec["log_before_stop"] + rec["log_at_return"] + rec["log_after"]
+    per = {}
+    for e in log:
+        per.setdefault(e[1], []).append(e)
+    stopped = rec["stop"] in ("shutdown", "proxydrop")
+    for i, (b, a, d, x) in enumerate(plan):
+        if x:
+            xl = next((t for t in rec["xlog"] if t[0] == i), None)
+            if xl is None:
+                return "crossbeam route %d disappeared" % i
+            if [m[1] for m in xl[1]] != list(range(b + a)) or any(m[0] != i for m in xl[1]):
+                return "crossbeam route %d: forwarded %s instead of its %d messages in order" % (i, xl[1][:8], b + a)
+            if (d or False) and not xl[2]:
+                return "crossbeam route %d: consumer not disconnected although the channel closed" % i
+            if stopped and not (xl[2] or dict((t[0], t[1]) for t in rec.get("xafter", [])).get(i)):
+                return "crossbeam route %d: downstream consumer does not observe disconnection after the router was stopped (%s)" % (i, rec["stop"])
+            continue
+        evs = per.get(i, [])
+        calls = [e for e in evs if e[0] == "call"]
+        if any(e[0] == "badmsg" for e in evs):
+            return "route %d: callback received an undecodable message" % i
+        if [e[3] for e in calls if e[3] != 9999] != list(range(b + a)) or any(e[2] != i for e in calls):
+            return "route %d: callback invoked with %s instead of its %d messages once each in order" % (i, [(e[2], e[3]) for e in calls][:8], b + a)
+        drops = [k for k, e in enumerate(evs) if e[0] == "drop"]
+        if len(drops) > 1:
+            return "route %d: callback dropped %d times" % (i, len(drops))
+        if drops and drops[0] != len(evs) - 1:
+            return "route %d: callback invoked after it was dropped" % i
+        if (d or stopped) and not drops:
+            return "route %d: callback never dropped although %s" % (i, "its channel disconnected" if d else "the router was stopped (%s)" % rec["stop"])
+        if not d and not stopped and drops:
+            return "route %d: callback dropped although its channel is still connected" % i
+    if rec["stop"] == "shutdown":
+        if not rec["stop_ok"]:
+            return "shutdown() did not return (deadlock) with %d callers racing add_route" % c["nshut"]
+        if any(e[0] == "call" for e in rec["log_after"]):
+            return "a callback was invoked after shutdown() had returned: %s" % rec["log_after"][:4]
+        at = rec["log_before_stop"] + rec["log_at_return"]
+        for i, (b, a, d, x) in enumerate(plan):
+            if not x and not any(e[0] == "drop" and e[1] == i for e in at):
+                return "route %d: callback not yet dropped when shutdown() returned" % i
+        for h in [e[1] for e in log if e[1] >= 2000]:
+            pass
+        if any(e[0] == "call" and e[1] >= 2000 for e in log):
+            return "a route offered after shutdown() had returned was invoked"
+        if not any(e[0] == "drop" and e[1] == 2000 for e in log):
+            return "a route offered after shutdown() had returned was not dropped"
+        for j in range(c["late"]):
+            if sum(1 for e in log if e[0] == "drop" and e[1] == 1000 + j) != 1:
+                return "a route offered while shutdown was in progress was not dropped exactly once"
+    if rec["stop"] == "proxydrop":
+        if any(e[0] == "call" and e[3] == 9999 for e in log):
+            return "a callback was invoked after the proxy had been dropped and the router had stopped"
+    return None
+
+
+def router_model_term(c, rec):
+    plan = c["plan"] or [(0, 0, True, False)]
+    pre = []
+    for i, (b, a, d, x) in enumerate(plan):
+        pre.append("PNewChan")
+        pre += ["PSend %d %d" % (i, q) for q in range(b)]
+        pre += ["PAddRoute %d %d" % (i, i), "REvWake"]
+        pre += ["PSend %d %d" % (i, b + q) for q in range(a)]
+        pre += ["REvMsg %d" % (i + 1)] * (a + b)
+        if d:
+            pre += ["PHup %d" % i, "REvClosed %d" % (i + 1)]
+    stopped = "false"
+    if rec["stop"] == "shutdown":
+        pre += ["PShutdown", "REvWake", "PAckWait"]
+        stopped = "true"
+    elif rec["stop"] == "proxydrop":
+        pre += ["PProxyDrop", "REvWakeClosed"]
+        stopped = "true"
+    log = rec["log_before_stop"] + rec["log_at_return"] + rec["log_after"]
+    obs = []
+    for i, (b, a, d, x) in enumerate(plan):
+        if x:
+            xl = next((t for t in rec["xlog"] if t[0] == i), (i, [], False))
+            after = dict((t[0], t[1]) for t in rec.get("xafter", []))
+            calls, drops = [m[1] for m in xl[1]], 1 if (xl[2] or after.get(i)) else 0
+        else:
+            calls = [e[3] for e in log if e[0] == "call" and e[1] == i and e[3] != 9999]
+            drops = sum(1 for e in log if e[0] == "drop" and e[1] == i)
+        obs.append("(%d, ([%s], %d))" % (i, "; ".join(str(x) for x in calls), drops))
+    return "check_router [%s] [%s] %s" % ("; ".join(pre), "; ".join(obs), stopped)
+
+
+def router_check(chk, prop, stops, rule):
+    thorough = chk.tier == "thorough"
+    rng = random.Random(chk.seed)
+    proof_ok = C.proof_stage(chk, prop)
+    bins = build_all(chk, ["default", "inprocess"])
+    if not all(bins.values()):
+        return
+    cases = gen_router_cases(rng, 1500 if thorough else 60, stops)
+    chunks = [cases[i::8] for i in range(8)]
+
+    def run(chunk, flavour="default"):
+        recs, _, rc, err = C.run_harness(bins[flavour], "router", [router_line(c) for c in chunk], shim=False, timeout=900)
+        by = {r["id"]: r for r in recs if r.get("kind") == "router"}
+        return [(c, by.get(c["id"]), flavour) for c in chunk]
+    with concurrent.futures.ThreadPoolExecutor(max_workers=8) as ex:
+        items = [it for r in ex.map(run, chunks) for it in r]
+    items += run(cases[:12], "inprocess")
+    fails = []
+    for c, rec, fl in items:
+        why = router_oracle(c, rec, prop)
+        if why:
+            fails.append((c, rec, fl, why))
+    for c, rec, fl, why in fails[:8]:
+        chk.failing_input(why, {"build": fl, "scenario": router_line(c), "observed": rec and {k: rec[k] for k in ("stop_ok", "panicked", "log_at_return", "log_after")},
+                                "log_before_stop": rec and rec["log_before_stop"][:30]}, key="%s:%s" % (fl, router_line(c)[:300]))
+    todo = [(i, router_model_term(c, rec)) for i, (c, rec, fl) in enumerate(items) if rec is not None and fl == "default"]
+    header = "From Coq Require Import List Bool.\nFrom IPC Require Import Router RouterCheck.\nImport ListNotations.\n"
+    res, errors = C.coq_eval_sharded(header, todo, lambda p: "Eval vm_compute in (%d, %s)." % p, prop.lower(), shard=20)
+    bad = [items[i] for i, _ in todo if res.get(i) != "true"]
+    cov = chk.coverage
+    cov["evaluations"] = len(items)
+    cov["traces_validated_against_impl"] = len(todo)
+    cov["distinct_nontrivial"] = len({router_line(c)[router_line(c).index("plan"):] for c, rec, fl in items if len(c["plan"]) > 1 and c["threads"] > 1})
+    cov["correspondence_mismatches"] = len(bad)
+    cov["rule"] = rule
+    cov["input_distribution"] = {"stops": {s: sum(1 for c, r, f in items if c["stop"] == s) for s in stops}, "routes_total": sum(len(c["plan"]) for c, r, f in items),
+                                 "crossbeam_routes": sum(1 for c, r, f in items for p in c["plan"] if p[3])}
+    for c, rec, fl in items[:2]:
+        chk.sample({"scenario": router_line(c), "log": rec and (rec["log_before_stop"] + rec["log_at_return"] + rec["log_after"])[:20]})
+    if errors:
+        chk.unproved("model evaluation (coqc on generated cases) failed", errors[0][-1500:])
+    if bad and not fails:
+        c, rec, fl = bad[0]
+        chk.unproved("correspondence RouterCheck.check_router: per-handler calls / drops / stopped flag differ from the Router LTS on %d of %d scenarios" % (len(bad), len(todo)),
+                     {"scenario": router_line(c), "model_term": router_model_term(c, rec)[:2500]})
+    chk.assumptions += ["the router's receiver set delivers, per member, its messages in order followed by one closure (C06); crossbeam channels are FIFO; std Mutex gives atomic proxy operations",
+                        "thread scheduling is not exhibited by the model: the theorems cover every interleaving, the runs sample some"]
+    finish_proof(chk, proof_ok, fails, bad)
+
+
+def check_C07(chk):
+    router_check(chk, "C07", ["none", "none", "shutdown"],
+                 "router driver: 0..32 routes registered from 1..8 threads while 0..50 messages per route are already queued and 0..50 more are sent during registration, "
+                 "senders dropped or kept, callback and crossbeam-forwarding routes; per-route log oracle (its messages once each in order, no foreign message, callback dropped "
+                 "exactly once after its last message when the channel disconnects); per-handler projections compared with the Router LTS run on the canonical schedule; "
+                 "in-process build too; non-trivial = several routes registered from several threads")
+
+
+def check_C17(chk):
+    router_check(chk, "C17", ["shutdown", "proxydrop", "shutdown"],
+                 "router driver: routers with 0..32 live routes (callback and crossbeam) and traffic in flight, stopped by shutdown() from 1..4 threads racing with 0..3 add_route calls, "
+                 "or by dropping the proxy; afterwards further sends on the old routes, a second shutdown() and a late add_route; oracle: no callback after the stop, every callback dropped "
+                 "(before shutdown() returns), late routes dropped uninvoked, no panic in any thread, no deadlock (watchdog); compared with the Router LTS; "
+                 "non-trivial = several routes registered from several threads")
+
+
+# ------------------------------------------------------------------ C20 (async driver)
+def check_C20(chk):
+    thorough = chk.tier == "thorough"
+    rng = random.Random(chk.seed)
+    proof_ok = C.proof_stage(chk, "C20")
+    bins = build_all(chk, ["async"])
+    if not all(bins.values()):
+        return
+    cases = []
+    for k in range(1000 if thorough else 40):
+        n = rng.randint(1, 32)
+        plan = [(rng.choice([0, 0, 1, 5, 50]), rng.choice([0, 1, 3, 20, 50]), rng.random() < 0.7) for _ in range(n)]
+        cases.append({"id": k + 1, "plan": plan, "threads": rng.randint(1, 8)})
+    lines = ["id=%d plan=%s threads=%d" % (c["id"], ";".join("%d,%d,%d" % (b, a, 1 if d else 0) for b, a, d in c["plan"]), c["threads"]) for c in cases]
+    chunks = [list(range(len(cases)))[i::6] for i in range(6)]
+
+    def run(idx):
+        recs, _, rc, err = C.run_harness(bins["async"], "async", [lines[i] for i in idx], shim=False, timeout=900)
+        return {r["id"]: r for r in recs if r.get("kind") == "async"}
+    got = {}
+    with concurrent.futures.ThreadPoolExecutor(max_workers=6) as ex:
+        for g in ex.map(run, chunks):
+            got.update(g)
+    fails, todo = [], []
+    for k, c in enumerate(cases):
+        r = got.get(c["id"])
+        why = None
+        if r is None:
+            why = "harness produced no record (crash?)"
+        elif r["finished"] < r["streams"]:
+            done = {x["stream"] for x in r["results"]}
+            why = ("%d of %d streams never completed: the consuming task was not woken or the stream never ended (streams %s)"
+                   % (r["streams"] - r["finished"], r["streams"], sorted(set(range(r["streams"])) - done)[:6]))
+        else:
+            for x in r["results"]:
+                b, a, d = c["plan"][x["stream"]]
+                if x["bad"]:
+                    why = "stream %d yielded an undecodable item" % x["stream"]
+                elif [m[1] for m in x["items"]] != list(range(b + a)) or any(m[0] != x["stream"] for m in x["items"]):
+                    why = "stream %d yielded %s instead of its %d messages once each in order" % (x["stream"], x["items"][:8], b + a)
+                elif d and not x["ended"]:
+                    why = "stream %d did not end although its last sender is gone" % x["stream"]
+                elif not d and x["ended"]:
+                    why = "stream %d ended although a sender is still alive" % x["stream"]
+                if why:
+                    break
+        if why:
+            fails.append((c, r, why))
+            continue
+        pre, obs = [], []
+        for i, (b, a, d) in enumerate(c["plan"]):
+            pre.append("PNewChan")
+            pre += ["PSend %d %d" % (i, q) for q in range(b)]
+            pre += ["PToStreamEnq %d" % i, "PToStreamWake", "RSelect", "REvWake", "REndBatch", "RDrainOne", "RDrainDone"]
+            pre += ["PSend %d %d" % (i, b + q) for q in range(a)]
+            if d:
+                pre.append("PHup %d" % i)
+            if a + b or d:
+                pre += ["RSelect"] + ["REvMsg %d" % (i + 1)] * (a + b) + (["REvClosed %d" % (i + 1)] if d else []) + ["REndBatch", "RDrainDone"]
+            pre += ["CPoll %d" % i] * (a + b + (1 if d else 0))
+        for x in r["results"]:
+            obs.append("(%d, ([%s], %s))" % (x["stream"], "; ".join(str(m[1]) for m in x["items"]), "true" if x["ended"] else "false"))
+        todo.append((k, "check_async [%s] [%s]" % ("; ".join(pre), "; ".join(obs))))
+    for c, r, why in fails[:8]:
+        chk.failing_input(why, {"scenario": lines[c["id"] - 1], "observed": r}, key=lines[c["id"] - 1][:300])
+    header = "From Coq Require Import List Bool.\nFrom IPC Require Import Async AsyncCheck.\nImport ListNotations.\n"
+    res, errors = C.coq_eval_sharded(header, todo, lambda p: "Eval vm_compute in (%d, %s)." % p, "c20", shard=10)
+    bad = [cases[i] for i, _ in todo if res.get(i) != "true"]
+    cov = chk.coverage
+    cov["evaluations"] = len(cases)
+    cov["streams"] = sum(len(c["plan"]) for c in cases)
+    cov["traces_validated_against_impl"] = len(todo)
+    cov["distinct_nontrivial"] = len({lines[c["id"] - 1][lines[c["id"] - 1].index("plan"):] for c in cases if len(c["plan"]) > 1 and c["threads"] > 1})
+    cov["correspondence_mismatches"] = len(bad)
+    cov["rule"] = ("async driver (feature async): 1..32 streams created from 1..8 threads with 0..50 messages queued before conversion and 0..50 sent afterwards, senders dropped "
+                   "or kept, each stream consumed by futures::executor::block_on on its own thread (a lost wake-up shows as a stream that never completes: watchdog 10 s); "
+                   "oracle: every message once, in order, of its own channel, end-of-stream iff the last sender is gone; yielded items and the end flag compared with the Async "
+                   "LTS run on the canonical schedule; non-trivial = several streams from several threads")
+    cov["input_distribution"] = {"streams_per_case": {"1": sum(1 for c in cases if len(c["plan"]) == 1), "2-10": sum(1 for c in cases if 2 <= len(c["plan"]) <= 10),
+                                                      ">10": sum(1 for c in cases if len(c["plan"]) > 10)}}
+    for c in cases[:2]:
+        chk.sample({"scenario": lines[c["id"] - 1][:200], "results": (got.get(c["id"]) or {}).get("results", [])[:3]})
+    if errors:
+        chk.unproved("model evaluation (coqc on generated cases) failed", errors[0][-1500:])
+    if bad and not fails:
+        c = bad[0]
+        chk.unproved("correspondence AsyncCheck.check_async: yielded items / end flags differ from the Async LTS on %d of %d scenarios" % (len(bad), len(todo)),
+                     {"scenario": lines[c["id"] - 1], "observed": got.get(c["id"])})
+    chk.assumptions += ["futures' unbounded channel is FIFO and wakes the registered waker on push and on close (assumed); executor scheduling is not exhibited by the model",
+                        "the routing thread's receiver set delivers, per member, its messages in order followed by one closure (C06)"]
+    finish_proof(chk, proof_ok, fails, bad)
